@@ -276,7 +276,6 @@ class MedianBlockCollection(BlockCollection):
         lfpCollection = medianBlock.getLumpedFissionProductCollection()
         if lfpCollection:
             lfpCollection = lfpCollection.duplicate()
-            lfpCollection.setGasRemovedFrac(newBlock.p.gasReleaseFraction)
             newBlock.setLumpedFissionProducts(lfpCollection)
         else:
             runLog.warning("Representative block {0} has no LFPs".format(medianBlock))
